@@ -131,6 +131,7 @@ def fam_c01(tier, seed):
     sks += _number("i", interleaved_family(tier))
     sks += _number("x", cross_reservation_family())
     sks += _number("d", double_sale_split_family())
+    sks += _number("w", two_event_window_family())
     rep = report_level([it for it in items if it[1] == BASES[0]], 4 if tier == "quick" else 5, quick=tier == "quick")
     sks += _number("r", rep, level="report")
     return sks
@@ -160,8 +161,24 @@ def bnb_split_event_family():
     return [(sk.canon_order(l), b) for l, b in out]
 
 
+def two_event_window_family():
+    """corporate actions on TWO different days inside one disposal's 30-day window, with a repurchase on the second
+    event day (listed before or after that day's event line), optionally another repurchase on the first event day"""
+    out = []
+    for (d1, d2) in ((2, 30), (30, 31), (15, 31)):
+        for (k1, r1, k2, r2) in (("X", "2", "X", "2"), ("X", "2", "U", "4"), ("U", "2", "X", "3"), ("U", "2", "U", "2")):
+            for first_day_buy in (False, True):
+                for ev_first in (True, False):
+                    l = [["B", "A", 0], ["S", "A", 1], [k1, "A", d1, r1]]
+                    if first_day_buy:
+                        l.append(["B", "A", d1])
+                    l += [[k2, "A", d2, r2], ["B", "A", d2]] if ev_first else [["B", "A", d2], [k2, "A", d2, r2]]
+                    out.append((l, BASES[0]))
+    return out
+
+
 def fam_c02(tier, seed):
-    items = matching_family(tier, seed, events=("X", "U", "C", "M", "D")) + bnb_split_event_family() + double_sale_split_family()
+    items = matching_family(tier, seed, events=("X", "U", "C", "M", "D")) + bnb_split_event_family() + double_sale_split_family() + two_event_window_family()
     sks = _number("m", items)
     sks += _number("i", interleaved_family(tier))
     rep = report_level([it for it in items if it[1] == BASES[0]], 4 if tier == "quick" else 5, quick=tier == "quick")
@@ -328,7 +345,7 @@ def fam_c10(tier, seed):
     b2s = list(sk.bs_family(2, 3, [0, 30], tickers=("A", "B"), need_sell=True))
     for l in sk.with_events(b2s, ("X",), [0, 1, 30], ratios=("2",), max_events=1, tickers=("B",)):
         items.append((l, BASES[0]))
-    sks = _number("t", _dedup(items + bnb_split_event_family()), variant="twin")
+    sks = _number("t", _dedup(items + bnb_split_event_family() + two_event_window_family()), variant="twin")
     noop = []
     for l in sk.bs_family(1, nb, SHORT, need_sell=False):
         for d in SHORT:
